@@ -901,10 +901,11 @@ func cloneEmits(m map[int]string) map[int]string {
 
 type Item struct {
 	Dir   string // package dir relative to repo
-	Kind  string // const | func | expr | cond
+	Kind  string // const | func | expr | cond | assign
 	Recv  string // receiver type name ("" for plain functions)
 	Func  string
-	Local string // expr: name of the local whose initialiser is taken
+	Local string // expr: name of the local whose initialiser is taken; assign: printed target, e.g. "id[6]"
+	Elem  string // assign: element type of the indexed array (e.g. "uint8")
 	Err   string // cond: substring of the error text returned in the if body
 	Name  string // Lean name
 	Emit  bool   // func writes into a []byte parameter and returns the count
@@ -1109,6 +1110,70 @@ func translate(p *pkg, it Item) (out string, err error) {
 		// struct-typed value receivers/params with integer fields (Position{X,Y,Z int})
 		e, ty := t.exprWithFields(found, fd)
 		return header(p, fd, it, what+" / "+it.Local) + sig(it.Name, params, *t.extra, ty.String()) + pre + "  " + e + "\n", nil
+	case "assign":
+		// `a[k] = rhs` at the top level of the body (Local is the printed target "a[k]"): the right-hand side as a
+		// function of the array elements it mentions (`a[j]` with constant j becomes a parameter `a_j` of type Elem).
+		// Locals defined earlier by `x := <integer constant>` are kept as `let`s.
+		ety, ok := p.lookupType(it.Elem)
+		if !ok || ety.Bool {
+			return "", fmt.Errorf("assign item needs an integer Elem type")
+		}
+		pre := ""
+		var rhs ast.Expr
+		for _, s := range fd.Body.List {
+			as, ok := s.(*ast.AssignStmt)
+			if !ok || len(as.Lhs) != 1 || len(as.Rhs) != 1 {
+				continue
+			}
+			if as.Tok == token.ASSIGN && exprText(p.fset, as.Lhs[0]) == it.Local {
+				rhs = as.Rhs[0]
+				break
+			}
+			if id, ok := as.Lhs[0].(*ast.Ident); ok && as.Tok == token.DEFINE {
+				if v, ok := t.isConst(as.Rhs[0]); ok && v.Kind() == constant.Int && t.typeOf(as.Rhs[0]) == nil {
+					ity := Type{64, true, false}
+					pre += t.bind(id.Name, lit(v, ity), ity, "  ")
+				}
+			}
+		}
+		if rhs == nil {
+			return "", fmt.Errorf("assignment to %s not found in %s", it.Local, what)
+		}
+		var ps []param
+		var rw func(n ast.Expr) ast.Expr
+		rw = func(n ast.Expr) ast.Expr {
+			switch x := n.(type) {
+			case *ast.IndexExpr:
+				arr, ok := x.X.(*ast.Ident)
+				kv, isc := t.isConst(x.Index)
+				if !ok || !isc {
+					t.fail(x, "unsupported index expression %s", exprText(p.fset, x))
+				}
+				k, _ := constant.Int64Val(kv)
+				nm := fmt.Sprintf("%s_%d", arr.Name, k)
+				t.vars[nm] = ety
+				ps = appendUnique(ps, param{nm, ety})
+				return &ast.Ident{Name: nm, NamePos: x.Pos()}
+			case *ast.CallExpr:
+				args := make([]ast.Expr, len(x.Args))
+				for i, a := range x.Args {
+					args[i] = rw(a)
+				}
+				return &ast.CallExpr{Fun: x.Fun, Args: args, Lparen: x.Lparen, Rparen: x.Rparen}
+			case *ast.BinaryExpr:
+				return &ast.BinaryExpr{X: rw(x.X), Op: x.Op, Y: rw(x.Y), OpPos: x.OpPos}
+			case *ast.UnaryExpr:
+				return &ast.UnaryExpr{Op: x.Op, X: rw(x.X), OpPos: x.OpPos}
+			case *ast.ParenExpr:
+				return &ast.ParenExpr{X: rw(x.X), Lparen: x.Lparen, Rparen: x.Rparen}
+			}
+			return n
+		}
+		e, ty := t.expr(rw(rhs), &ety)
+		if ty != ety {
+			return "", fmt.Errorf("assignment to %s stores %v, element type is %v", it.Local, ty, ety)
+		}
+		return header(p, fd, it, what+" / "+it.Local+" =") + sig(it.Name, ps, *t.extra, ty.String()) + pre + "  " + e + "\n", nil
 	case "cond":
 		var cond ast.Expr
 		ast.Inspect(fd.Body, func(n ast.Node) bool {
